@@ -72,7 +72,10 @@ def removal_rules(fx, rep):
     uses = []
     for sb, ce in tf.ces.items():
         c = cmp_norm(E.strip_casts(ce.expr))
-        if c and c[0] in ("Eq",) and E.mentions_field(c[1], "topic_name") and E.mentions_field(c[2], "topic_name") and ce.true_target is not None:
+        if c and c[0] in ("Eq", "Ne") and E.mentions_field(c[1], "topic_name") and E.mentions_field(c[2], "topic_name") and ce.true_target is not None:
+            if c[0] == "Ne":
+                # `if a != b { continue; } return Err(..)`: the in-use edge is the false edge
+                ce = type("Flipped", (), {"true_target": ce.false_target, "false_target": ce.true_target, "expr": ce.expr})()
             who = "writer" if E.mentions_field(ce.expr, "data_writer_list") else ("reader" if E.mentions_field(ce.expr, "data_reader_list") else
                   ("cft" if (E.mentions_field(ce.expr, "content_filtered_topic_list") or E.mentions_field(ce.expr, "related_topic_name")) else "?"))
             uses.append((who, sb, ce))
